@@ -530,23 +530,23 @@ func floors(run *vkit.Run) {
 		return
 	}
 	need := map[string]int64{
-		"server_requests":              1000,
-		"server_certs_read_raw":        10000,
-		"server_power_tables_checked":  100,
+		"server_requests":                    1000,
+		"server_certs_read_raw":              10000,
+		"server_power_tables_checked":        100,
 		"server_stores_with_evolving_tables": 3,
-		"client_requests":              200,
-		"client_bad_headers_rejected":  5,
-		"client_limit_enforced_cases":  3,
-		"client_stop_sequence":         5,
-		"client_stop_oversized":        3,
-		"polls":                        300,
-		"poller_certs_stored":          500,
-		"poller_items_rejected":        50,
-		"poll_status_PollHit":          20,
-		"poll_status_PollMiss":         5,
-		"poll_status_PollFailed":       20,
-		"poll_status_PollIllegal":      20,
-		"polls_multi_round":            3,
+		"client_requests":                    200,
+		"client_bad_headers_rejected":        5,
+		"client_limit_enforced_cases":        3,
+		"client_stop_sequence":               5,
+		"client_stop_oversized":              3,
+		"polls":                              300,
+		"poller_certs_stored":                500,
+		"poller_items_rejected":              50,
+		"poll_status_PollHit":                20,
+		"poll_status_PollMiss":               5,
+		"poll_status_PollFailed":             20,
+		"poll_status_PollIllegal":            20,
+		"polls_multi_round":                  3,
 	}
 	for k, v := range need {
 		if run.Counter(k) < v {
@@ -557,6 +557,10 @@ func floors(run *vkit.Run) {
 	if run.Counter("harness_errors") > 0 {
 		fmt.Printf("FLOOR harness_errors=%d\n", run.Counter("harness_errors"))
 		run.Inconclusive("harness-error")
+	}
+	if u := run.Counter("client_good_header_refused_unexpected"); u > 0 {
+		fmt.Printf("FLOOR client_good_header_refused_unexpected=%d (client refused a well-formed header on a clean stream)\n", u)
+		run.Inconclusive("too-few-events")
 	}
 	if u := run.Counter("client_underdelivery"); u > 0 {
 		fmt.Printf("FLOOR client_underdelivery=%d (client delivered fewer certificates than were sent intact)\n", u)
